@@ -112,6 +112,20 @@ func Script(asserts []*Term, values []*Term, produceModels bool) string {
 		}
 		prev = d
 	}
+	if len(closures) > 0 {
+		// function literals / declared functions are not the nil function value
+		hasNil := false
+		for _, t := range order {
+			if t.Op == "var" && t.Name == "fn!nil" {
+				hasNil = true
+			}
+		}
+		if hasNil {
+			for _, c := range closures {
+				fmt.Fprintf(&b, "(assert (not (= %s %s)))\n", Q("fn:"+c.Name), Q("fn!nil"))
+			}
+		}
+	}
 	if len(strlits) > 1 {
 		b.WriteString("(assert (distinct")
 		for _, s := range strlits {
